@@ -169,7 +169,7 @@ class C14(Prop):
             "pandas-nullable column types with pd.NA; Table and a subclass of Table), both argument orders, plus unrelated "
             "pairs and non-table operands: the model's method_equals on the cells the frames hand out (ints as integers, "
             "floats as bit patterns) against the four verdicts a.equals(b), b.equals(a), a.equals(a), b.equals(b); all "
-            "pairs of a 49-value scalar pool through _equal_or_same against the model's equal_or_same; expected verdict "
+            "pairs of a 49-value scalar pool, as one-cell tables through Table.equals, against the model's equal_or_same; expected verdict "
             "recomputed independently from the specifications; non-trivial = tables with at least one column; "
             "distinct = distinct pairs")
     assumptions = [
@@ -276,14 +276,15 @@ class C14(Prop):
         from pdtable import Table, TableOrigin
 
         if "scalars" in case:
-            from pdtable.proxy import _equal_or_same
-
+            # two one-cell tables (an object column keeps the scalar as it is): the cell comparison through the
+            # public method, whatever the helpers behind it are called
             pool = scalar_pool()
             x, y = pool[case["scalars"][0]], pool[case["scalars"][1]]
+            one = lambda v: Table(pd.DataFrame({"v": pd.Series([v], dtype=object)}), name="t", units=["text"])
             raised = None
             try:
-                got = bool(_equal_or_same(x, y))
-            except Exception as e:     # inside Table.equals an exception means "not equal" (the comparison cannot be made)
+                got = bool(one(x).equals(one(y)))
+            except Exception as e:
                 got, raised = False, type(e).__name__
             return {"scalar": got, "raised": raised, "x": g_pyval(x), "y": g_pyval(y), "tok_equal": T.tok(x, True) == T.tok(y, True),
                     "repr": [repr(x), repr(y)]}
@@ -311,7 +312,7 @@ class C14(Prop):
         fails = []
         if "scalar" in obs:
             if obs["scalar"] != obs["tok_equal"]:
-                fails.append(f"cells: _equal_or_same({obs['repr'][0]}, {obs['repr'][1]}) gave {obs['scalar']}, by value and "
+                fails.append(f"cells: one-cell tables holding {obs['repr'][0]} and {obs['repr'][1]} compare {obs['scalar']}, by value and "
                              f"missingness the two are {'equal' if obs['tok_equal'] else 'different'}")
             return fails
         if obs.get("nontable"):
